@@ -8,8 +8,10 @@ def part(name, pkg, test, **kw):
 
 PROPS = {
     "C01": {"level": "exploration", "parts": [part("dump", "stack", "TestVerifC01")]},
+    "C02": {"level": "model_checking", "parts": [part("bfs", "stack", "TestVerifC02")]},
     "C04": {"level": "exploration", "parts": [part("agg", "stack", "TestVerifC04")]},
     "C05": {"level": "exploration", "parts": [part("agg", "stack", "TestVerifC05")]},
     "C13": {"level": "exploration", "parts": [part("order", "stack", "TestVerifC13")]},
+    "C07": {"level": "model_checking", "parts": [part("bfs", "stack", "TestVerifC07")]},
     "C12": {"level": "exploration", "parts": [part("agg", "stack", "TestVerifC12")]},
 }
